@@ -152,8 +152,8 @@ def verb_scene(m, cls, name, mode, currenvir, body):
     return {'self': me, 'tex': tex, '__ctx': ctx, '__me': me, '__parent': parent}
 
 
-def r111(chk, m):
-    R = chk.rule('R11.1', 'the verbatim scan interpreted on scripted character streams: the frame is pushed, the arguments parsed and '
+def r111(chk, m, rule_id='R11.1'):
+    R = chk.rule(rule_id, 'the verbatim scan interpreted on scripted character streams: the frame is pushed, the arguments parsed and '
                  'the verbatim codes installed before the first character is read; every character up to the end marker is returned, '
                  'in order (partial end markers, backslashes and braces included); the frame is popped and the end token re-inserted '
                  'exactly at the end marker - for \\end{name} and for \\endname', 8)
